@@ -252,6 +252,11 @@ pub enum Op {
     Validator { user: Caller, add: bool, sel: u8 },
     Ownership { user: Caller, act: OwnAct },
     Advance(TimeSel),
+    /// n small stakes whose staker packets all fail (error ack / timeout alternating): many refundable
+    /// packets at once, so that paginated recovery (page size 10) has something to paginate
+    Burst(u8),
+    /// n rounds of (unstake a little, submit the batch at its deadline): many batches in one history
+    Churn(u8),
     Traffic(u8),
     OracleToggle,
     Query(QuerySel),
@@ -276,6 +281,8 @@ impl Op {
             Op::Validator { .. } => "Validator",
             Op::Ownership { .. } => "Ownership",
             Op::Advance(_) => "Advance",
+            Op::Burst(_) => "Burst",
+            Op::Churn(_) => "Churn",
             Op::Traffic(_) => "Traffic",
             Op::OracleToggle => "OracleToggle",
             Op::Query(_) => "Query",
@@ -313,6 +320,8 @@ pub struct Profile {
     pub w_owner: u32,
     pub w_advance: u32,
     pub w_traffic: u32,
+    pub w_burst: u32,
+    pub w_churn: u32,
     pub w_oracle_toggle: u32,
     pub w_query: u32,
     /// probability weights inside ops
@@ -354,6 +363,8 @@ impl Profile {
             w_owner: 1,
             w_advance: 12,
             w_traffic: 2,
+            w_burst: 0,
+            w_churn: 0,
             w_oracle_toggle: 0,
             w_query: 1,
             hostile_callers: false,
@@ -583,6 +594,8 @@ pub fn op_strategy(p: &Profile) -> BoxedStrategy<Op> {
         (p.w_owner, owner.boxed()),
         (p.w_advance, advance.boxed()),
         (p.w_traffic, traffic.boxed()),
+        (p.w_burst, (4u8..16).prop_map(Op::Burst).boxed()),
+        (p.w_churn, (8u8..40).prop_map(Op::Churn).boxed()),
         (p.w_oracle_toggle, Just(Op::OracleToggle).boxed()),
         (p.w_query, query.boxed()),
     ];
